@@ -9,6 +9,14 @@ package main
 //   conc: several goroutines + the periodic cleaner ticking on the fake clock + manual Cleanups
 //         running unserialised; every client operation takes effect under the harness's mutex,
 //         which yields the linearised history; only the soundness of hits is judged.
+//   stops: 1..4 Stop calls that OVERLAP, issued while the periodic cleaner is held in the middle
+//         of a Cleanup pass (the injected clock's Now() is a callback of the cleaner goroutine: a
+//         one-shot gate in it parks the cleaner inside Cleanup); every caller reads
+//         VerifCleanerExited itself right after its Stop returns; then the gate is opened.
+//
+// Keys: the Coq case speaks of key INDICES 0..3; the Go string behind an index comes from one of
+// the key sets below (empty string, NUL byte, very long keys, keys that are prefixes of each
+// other, invalid UTF-8), chosen per case.
 
 import (
 	"encoding/json"
@@ -19,6 +27,7 @@ import (
 	"sort"
 	"strings"
 	"sync"
+	"sync/atomic"
 	"time"
 
 	"github.com/dapr/kit/ttlcache"
@@ -42,7 +51,8 @@ type c15Op struct {
 }
 
 type c15Input struct {
-	Kind        string    `json:"kind"` // seq | conc
+	Kind        string    `json:"kind"`             // seq | conc | stops
+	KeySet      int       `json:"keyset,omitempty"` // index into keySets (0 = plain "k0".."k3")
 	MaxTTL      int64     `json:"maxttl"`
 	Mono        bool      `json:"mono,omitempty"` // clock base carries a monotonic reading (time.Now())
 	InitialSize int32     `json:"initial_size,omitempty"`
@@ -50,14 +60,38 @@ type c15Input struct {
 	Threads     [][]c15Op `json:"threads,omitempty"`  // conc
 	Interval    int64     `json:"interval,omitempty"` // conc: CleanupInterval in ns
 	Tag         string    `json:"tag,omitempty"`      // generator family, for the statistics only
+	// stops: Ops = operations applied first (they fill the map); then
+	Callers   int  `json:"callers,omitempty"`   // number of overlapping Stop calls
+	Hold      bool `json:"hold,omitempty"`      // park the cleaner inside a Cleanup pass first
+	Staggered bool `json:"staggered,omitempty"` // start caller i+1 only once caller i is parked / back
+	LingerMs  int  `json:"linger_ms,omitempty"` // keep the cleaner parked this long after the callers settled
 }
 
-func keyName(k int) string { return fmt.Sprintf("k%d", k) }
+var longKey = strings.Repeat("L", 300)
 
-func keyIndex(s string) int64 {
-	var k int64 = -1
-	fmt.Sscanf(s, "k%d", &k)
-	return k
+// keySets[s][i] = the Go key behind key index i in a case that uses key set s.
+var keySets = [][nKeys]string{
+	{"k0", "k1", "k2", "k3"},
+	// the empty key; a key, the same key + NUL byte, the same key + 4 KiB tail (prefix chain)
+	{"", "k1", "k1\x00", "k1" + strings.Repeat("x", 4096)},
+	// NUL alone; the empty key; two long keys that differ in their last byte only
+	{"\x00", "", longKey + "a", longKey + "b"},
+	// prefix chain a / ab; the empty key; invalid UTF-8
+	{"a", "ab", "", "\xff\xfe"},
+	// a key that looks like another with blanks / different case; the empty key last
+	{"Key", "key", "key ", ""},
+}
+
+func keyName(set, k int) string { return keySets[set][k] }
+
+// keyIndex: the index of a stored key, -1 for a key that is not in the case's key set.
+func keyIndex(set int, s string) int64 {
+	for i, n := range keySets[set] {
+		if n == s {
+			return int64(i)
+		}
+	}
+	return -1
 }
 
 func z(v int64) string {
@@ -125,7 +159,7 @@ func newClock(mono bool) *clocktesting.FakeClock {
 }
 
 // apply runs one operation on the cache; any panic is reported as the result "panic".
-func apply(c *ttlcache.Cache[int64], clk *clocktesting.FakeClock, o c15Op) (res c15Res) {
+func apply(c *ttlcache.Cache[int64], clk *clocktesting.FakeClock, ks int, o c15Op) (res c15Res) {
 	defer func() {
 		if p := recover(); p != nil {
 			res = c15Res{Kind: "panic"}
@@ -133,15 +167,15 @@ func apply(c *ttlcache.Cache[int64], clk *clocktesting.FakeClock, o c15Op) (res 
 	}()
 	switch o.Op {
 	case "set":
-		c.Set(keyName(o.K), o.V, o.TTL)
+		c.Set(keyName(ks, o.K), o.V, o.TTL)
 	case "get":
-		v, ok := c.Get(keyName(o.K))
+		v, ok := c.Get(keyName(ks, o.K))
 		if ok {
 			return c15Res{Kind: "hit", V: v}
 		}
 		return c15Res{Kind: "miss"}
 	case "del":
-		c.Delete(keyName(o.K))
+		c.Delete(keyName(ks, o.K))
 	case "cleanup":
 		c.Cleanup()
 	case "reset":
@@ -149,10 +183,10 @@ func apply(c *ttlcache.Cache[int64], clk *clocktesting.FakeClock, o c15Op) (res 
 	case "adv":
 		clk.Step(time.Duration(o.D))
 	case "keys":
-		ks := c.VerifKeys()
-		out := make([]int64, len(ks))
-		for i, s := range ks {
-			out[i] = keyIndex(s)
+		stored := c.VerifKeys()
+		out := make([]int64, len(stored))
+		for i, s := range stored {
+			out[i] = keyIndex(ks, s)
 		}
 		sort.Slice(out, func(i, j int) bool { return out[i] < out[j] })
 		return c15Res{Kind: "keys", Keys: out}
@@ -351,7 +385,7 @@ func c15RunSeq(ctx *core.Ctx, in c15Input) {
 	}, clk)
 	obs := make([]c15Res, len(in.Ops))
 	for i, o := range in.Ops {
-		obs[i] = apply(c, clk, o)
+		obs[i] = apply(c, clk, in.KeySet, o)
 	}
 	returned, exited := stop(c)
 	hits, misses, expMiss := count(ctx, in, in.Ops, obs)
@@ -362,6 +396,7 @@ func c15RunSeq(ctx *core.Ctx, in c15Input) {
 	cs.Coq = fmt.Sprintf("CSeq %s %s %s %s %s", z(in.MaxTTL), coqOps(in.Ops), coqRes(obs),
 		hx.CoqBool(returned), hx.CoqBool(exited))
 	ctx.Sink.Count("kind=seq")
+	ctx.Sink.Count(fmt.Sprintf("seq/keyset=%d", in.KeySet))
 	if in.Tag != "" {
 		ctx.Sink.Count("seq/family=" + in.Tag)
 	}
@@ -405,7 +440,7 @@ func c15RunConc(ctx *core.Ctx, in c15Input) {
 					continue
 				}
 				mu.Lock()
-				r := apply(c, clk, o)
+				r := apply(c, clk, in.KeySet, o)
 				lin = append(lin, o)
 				obs = append(obs, r)
 				mu.Unlock()
@@ -418,7 +453,7 @@ func c15RunConc(ctx *core.Ctx, in c15Input) {
 	for k := 0; k < nKeys; k++ {
 		o := c15Op{Op: "get", K: k}
 		mu.Lock()
-		r := apply(c, clk, o)
+		r := apply(c, clk, in.KeySet, o)
 		lin = append(lin, o)
 		obs = append(obs, r)
 		mu.Unlock()
@@ -432,7 +467,241 @@ func c15RunConc(ctx *core.Ctx, in c15Input) {
 	cs.Coq = fmt.Sprintf("CConc %s %s %s %s %s", z(in.MaxTTL), coqOps(lin), coqRes(obs),
 		hx.CoqBool(returned), hx.CoqBool(exited))
 	ctx.Sink.Count("kind=conc")
+	ctx.Sink.Count(fmt.Sprintf("conc/keyset=%d", in.KeySet))
 	ctx.Sink.Count(fmt.Sprintf("conc/goroutines=%d", len(in.Threads)))
+	ctx.Sink.Add(cs)
+}
+
+// ---------------------------------------------------------------------------------------
+// stops: overlapping Stop calls while the cleaner is parked inside a Cleanup pass.
+
+// gateClock is the fake clock with a one-shot gate in Now(): once armed, the NEXT call of Now()
+// announces itself (entered is closed) and blocks until the gate is opened.  The harness arms it
+// only when the sole possible caller of Now() is the cleaner goroutine (Cleanup's first line).
+type gateClock struct {
+	*clocktesting.FakeClock
+	mu      sync.Mutex
+	armed   bool
+	entered chan struct{}
+	gate    chan struct{}
+}
+
+func newGateClock(mono bool) *gateClock {
+	return &gateClock{FakeClock: newClock(mono), entered: make(chan struct{}), gate: make(chan struct{})}
+}
+
+func (g *gateClock) Now() time.Time {
+	g.mu.Lock()
+	if g.armed {
+		g.armed = false
+		close(g.entered)
+		g.mu.Unlock()
+		<-g.gate
+	} else {
+		g.mu.Unlock()
+	}
+	return g.FakeClock.Now()
+}
+
+func (g *gateClock) arm() {
+	g.mu.Lock()
+	g.armed = true
+	g.mu.Unlock()
+}
+
+type stopCall struct {
+	done     atomic.Bool // Stop returned
+	exited   atomic.Bool // VerifCleanerExited() read by the caller right after its Stop returned
+	heldThen atomic.Bool // the gate was still closed at that moment (statistics only)
+}
+
+// stopCaller is the entry function of every goroutine that calls Stop in a stops case (named, so
+// that parkedStopCallers can find these goroutines in a stack dump).
+func stopCaller(c *ttlcache.Cache[int64], sc *stopCall, gateOpen *atomic.Bool, returned *atomic.Int32, wg *sync.WaitGroup) {
+	defer wg.Done()
+	c.Stop()
+	ex := c.VerifCleanerExited()
+	sc.heldThen.Store(!gateOpen.Load())
+	sc.exited.Store(ex)
+	sc.done.Store(true)
+	returned.Add(1)
+}
+
+// parkedStopCallers counts the live goroutines started on stopCaller that are blocked (scheduler
+// state other than running / runnable / syscall): observable state, read from a stack dump.
+func parkedStopCallers() int {
+	buf := make([]byte, 1<<16)
+	for {
+		n := runtime.Stack(buf, true)
+		if n < len(buf) {
+			buf = buf[:n]
+			break
+		}
+		buf = make([]byte, 2*len(buf))
+	}
+	parked := 0
+	for _, blk := range strings.Split(string(buf), "\n\n") {
+		if !strings.HasPrefix(blk, "goroutine ") || !strings.Contains(blk, "main.stopCaller(") {
+			continue
+		}
+		i, j := strings.IndexByte(blk, '['), strings.IndexByte(blk, ']')
+		if i < 0 || j < i {
+			continue
+		}
+		state := blk[i+1 : j]
+		if k := strings.IndexByte(state, ','); k >= 0 {
+			state = state[:k]
+		}
+		switch state {
+		case "running", "runnable", "syscall":
+		default:
+			parked++
+		}
+	}
+	return parked
+}
+
+// settle waits until every one of the `launched` callers is either back from Stop or parked in
+// it.  Not a judgement: on a deadline the case simply goes on (and says so in the statistics).
+func settle(launched int, returned *atomic.Int32) bool {
+	deadline := time.Now().Add(10 * time.Second)
+	for {
+		r := int(returned.Load())
+		if r >= launched || r+parkedStopCallers() >= launched {
+			return true
+		}
+		if time.Now().After(deadline) {
+			return false
+		}
+		time.Sleep(100 * time.Microsecond)
+	}
+}
+
+func c15RunStops(ctx *core.Ctx, in c15Input) {
+	if in.Callers < 1 || in.Callers > 16 {
+		panic("c15: bad number of Stop callers")
+	}
+	clk := newGateClock(in.Mono)
+	interval := in.Interval
+	if interval <= 0 {
+		interval = secondNs
+	}
+	c := ttlcache.VerifNewCache[int64](ttlcache.CacheOptions{
+		InitialSize:     in.InitialSize,
+		CleanupInterval: time.Duration(interval),
+		MaxTTL:          in.MaxTTL,
+	}, clk)
+	for _, o := range in.Ops {
+		if o.Op == "adv" || o.Op == "cleanup" {
+			panic("c15: stops: only map operations before the Stops")
+		}
+		apply(c, clk.FakeClock, in.KeySet, o)
+	}
+	// park the cleaner inside Cleanup: wait for its ticker, arm the gate, let one tick fire
+	held := false
+	if in.Hold {
+		deadline := time.Now().Add(30 * time.Second)
+		for !clk.HasWaiters() && time.Now().Before(deadline) {
+			time.Sleep(100 * time.Microsecond)
+		}
+		if clk.HasWaiters() {
+			clk.arm()
+			clk.Step(time.Duration(interval))
+			select {
+			case <-clk.entered:
+				held = true
+			case <-time.After(30 * time.Second):
+			}
+		}
+	}
+	var (
+		gateOpen atomic.Bool
+		returned atomic.Int32
+		wg       sync.WaitGroup
+	)
+	calls := make([]*stopCall, in.Callers)
+	settled := true
+	for i := range calls {
+		calls[i] = &stopCall{}
+		wg.Add(1)
+		go stopCaller(c, calls[i], &gateOpen, &returned, &wg)
+		if in.Staggered && !settle(i+1, &returned) {
+			settled = false
+		}
+	}
+	if !settle(in.Callers, &returned) {
+		settled = false
+	}
+	if held && in.LingerMs > 0 {
+		// not a judgement: only gives a Stop that gives up waiting after a while the time to do so
+		time.Sleep(time.Duration(in.LingerMs) * time.Millisecond)
+	}
+	gateOpen.Store(true)
+	close(clk.gate) // the cleaner goes on (also harmless when nothing is parked on it)
+	joined := make(chan struct{})
+	go func() {
+		wg.Wait()
+		close(joined)
+	}()
+	select {
+	case <-joined:
+	case <-time.After(30 * time.Second): // liveness: a Stop that is still not back has not returned
+	}
+	type pair struct {
+		Returned bool `json:"returned"`
+		Exited   bool `json:"cleaner_exited_at_return"`
+		Held     bool `json:"cleaner_still_held_at_return,omitempty"`
+	}
+	var obs []pair
+	early := 0
+	for _, sc := range calls {
+		p := pair{Returned: sc.done.Load()}
+		if p.Returned {
+			p.Exited = sc.exited.Load()
+			p.Held = held && sc.heldThen.Load()
+			if p.Held {
+				early++
+			}
+		}
+		obs = append(obs, p)
+	}
+	// one more, sequential, Stop after everything (idempotence)
+	r2, e2 := stop(c)
+	obs = append(obs, pair{Returned: r2, Exited: e2})
+	parts := make([]string, len(obs))
+	for i, p := range obs {
+		parts[i] = fmt.Sprintf("(%s, %s)", hx.CoqBool(p.Returned), hx.CoqBool(p.Exited))
+	}
+	cs := hx.Case{Kind: "stops", Input: hx.MustJSON(in), Facts: map[string]any{"maxttl": in.MaxTTL}}
+	cs.Class = fmt.Sprintf("stops/n%d/hold=%v/staggered=%v/prefill=%d/keyset=%d", in.Callers, in.Hold, in.Staggered, len(in.Ops), in.KeySet)
+	cs.Trivial = !(held || in.Callers >= 2)
+	cs.Observed = map[string]any{"calls": obs, "cleaner_held_in_cleanup": held, "callers_settled_before_release": settled,
+		"returned_while_cleaner_held": early}
+	cs.Coq = "CStops " + hx.CoqList(parts)
+	ctx.Sink.Count("kind=stops")
+	ctx.Sink.Count(fmt.Sprintf("stops/callers=%d", in.Callers))
+	switch {
+	case held:
+		ctx.Sink.Count("stops/cleaner_held_inside_cleanup")
+	case in.Hold:
+		ctx.Sink.Count("stops/cleaner_could_not_be_held")
+	default:
+		ctx.Sink.Count("stops/cleaner_idle")
+	}
+	if in.Staggered {
+		ctx.Sink.Count("stops/staggered")
+	} else {
+		ctx.Sink.Count("stops/together")
+	}
+	if !settled {
+		ctx.Sink.Count("stops/callers_not_seen_parked_in_10s")
+	}
+	if len(in.Ops) == 0 {
+		ctx.Sink.Count("stops/empty_map")
+	}
+	if held && in.LingerMs > 0 {
+		ctx.Sink.Count("stops/cleaner_kept_parked_after_callers_settled")
+	}
 	ctx.Sink.Add(cs)
 }
 
@@ -445,11 +714,16 @@ func c15Run(ctx *core.Ctx, in c15Input) {
 			}
 		}
 	}
+	if in.KeySet < 0 || in.KeySet >= len(keySets) {
+		panic("c15: bad key set")
+	}
 	switch in.Kind {
 	case "seq":
 		c15RunSeq(ctx, in)
 	case "conc":
 		c15RunConc(ctx, in)
+	case "stops":
+		c15RunStops(ctx, in)
 	default:
 		panic("c15: bad kind " + in.Kind)
 	}
@@ -593,6 +867,14 @@ func genThread(r *hx.Rand, n int, maxttl int64, vbase int64) []c15Op {
 	return ops
 }
 
+// genKeySet: the plain keys one time in four, else one of the unusual key sets.
+func genKeySet(r *hx.Rand) int {
+	if r.Chance(1, 4) {
+		return 0
+	}
+	return r.Range(1, len(keySets)-1)
+}
+
 func c15Gen(ctx *core.Ctx) {
 	r := ctx.R
 	// --- systematic boundary families -------------------------------------------------
@@ -612,7 +894,7 @@ func c15Gen(ctx *core.Ctx) {
 						ops = append(ops, c15Op{Op: "cleanup"}, c15Op{Op: "keys"})
 					}
 					ops = append(ops, c15Op{Op: "get", K: 0}, c15Op{Op: "get", K: 1}, c15Op{Op: "keys"})
-					c15Run(ctx, c15Input{Kind: "seq", MaxTTL: maxttl, Ops: ops, Tag: "boundary", Mono: r.Chance(1, 4)})
+					c15Run(ctx, c15Input{Kind: "seq", KeySet: genKeySet(r), MaxTTL: maxttl, Ops: ops, Tag: "boundary", Mono: r.Chance(1, 4)})
 				}
 			}
 		}
@@ -642,7 +924,7 @@ func c15Gen(ctx *core.Ctx) {
 							if r.Bool() {
 								ops = append(ops, c15Op{Op: "cleanup"}, c15Op{Op: "keys"}, c15Op{Op: "get", K: 2})
 							}
-							c15Run(ctx, c15Input{Kind: "seq", MaxTTL: maxttl, Ops: ops, Tag: "overwrite"})
+							c15Run(ctx, c15Input{Kind: "seq", KeySet: genKeySet(r), MaxTTL: maxttl, Ops: ops, Tag: "overwrite"})
 						}
 					}
 				}
@@ -655,7 +937,42 @@ func c15Gen(ctx *core.Ctx) {
 			for _, d := range []int64{0, 290448383, 290448384, 1290448384, 3*secondNs - 1, 3 * secondNs} {
 				ops := []c15Op{{Op: "set", K: 3, V: 30, TTL: ttl}, {Op: "get", K: 3}, {Op: "adv", D: d},
 					{Op: "get", K: 3}, {Op: "cleanup"}, {Op: "keys"}, {Op: "get", K: 3}}
-				c15Run(ctx, c15Input{Kind: "seq", MaxTTL: maxttl, Ops: ops, Tag: "int64_edge"})
+				c15Run(ctx, c15Input{Kind: "seq", KeySet: genKeySet(r), MaxTTL: maxttl, Ops: ops, Tag: "int64_edge"})
+			}
+		}
+	}
+	// --- overlapping Stop calls ----------------------------------------------------------
+	// 1..4 callers x cleaner parked inside a Cleanup pass / idle x all at once / one after the
+	// other x empty / filled map (some entries expired by the tick that starts the pass)
+	rounds := 2
+	if ctx.Thorough {
+		rounds = 40
+	}
+	for round := 0; round < rounds; round++ {
+		for callers := 1; callers <= 4; callers++ {
+			for _, hold := range []bool{true, false} {
+				for _, staggered := range []bool{false, true} {
+					for _, fill := range []bool{false, true} {
+						if !hold && round > 0 && !r.Chance(1, 4) {
+							continue
+						}
+						in := c15Input{Kind: "stops", KeySet: genKeySet(r), Callers: callers, Hold: hold,
+							Staggered: staggered, Interval: int64(r.Range(1, 4)) * secondNs / 2,
+							MaxTTL: maxTTLs[r.Intn(len(maxTTLs))], Mono: r.Chance(1, 5)}
+						if r.Chance(1, 3) {
+							in.InitialSize = int32(r.Range(1, 64))
+						}
+						if hold && round == 0 && !staggered && callers <= 2 {
+							in.LingerMs = 200
+						}
+						if fill {
+							for i, n := 0, r.Range(1, 6); i < n; i++ {
+								in.Ops = append(in.Ops, c15Op{Op: "set", K: r.Intn(nKeys), V: int64(500 + i), TTL: int64(r.Range(1, 3))})
+							}
+						}
+						c15Run(ctx, in)
+					}
+				}
 			}
 		}
 	}
@@ -666,7 +983,7 @@ func c15Gen(ctx *core.Ctx) {
 	}
 	for i := 0; i < nseq; i++ {
 		maxttl := maxTTLs[r.Intn(len(maxTTLs))]
-		in := c15Input{Kind: "seq", MaxTTL: maxttl, Mono: r.Chance(1, 5), Tag: "random",
+		in := c15Input{Kind: "seq", KeySet: genKeySet(r), MaxTTL: maxttl, Mono: r.Chance(1, 5), Tag: "random",
 			Ops: genSeq(r, r.Range(lo, hi), maxttl, 100)}
 		if r.Chance(1, 3) {
 			in.InitialSize = int32(r.Range(1, 64))
@@ -681,7 +998,7 @@ func c15Gen(ctx *core.Ctx) {
 	for i := 0; i < nconc; i++ {
 		maxttl := maxTTLs[r.Intn(len(maxTTLs))]
 		g := r.Range(2, 4)
-		in := c15Input{Kind: "conc", MaxTTL: maxttl, Mono: r.Chance(1, 5),
+		in := c15Input{Kind: "conc", KeySet: genKeySet(r), MaxTTL: maxttl, Mono: r.Chance(1, 5),
 			Interval: int64(r.Range(1, 4)) * secondNs / 2}
 		for t := 0; t < g; t++ {
 			in.Threads = append(in.Threads, genThread(r, r.Range(plo, phi), maxttl, int64(t+1)*1000000))
